@@ -11,12 +11,14 @@ import (
 )
 
 type c08Case struct {
-	Cfg    LimitCfg `json:"cfg"`
-	Prefix []Sample `json:"prefix"`
-	Final  Sample   `json:"final"`  // in-flight / drop flag of the final sample (RTT field unused)
-	DLow   int64    `json:"d_low"`  // rtt_low  = baseline + DLow
-	Mul    int      `json:"mul"`    // rtt_high = rtt_low * Mul/100 + DHigh  (Mul >= 100)
-	DHigh  int64    `json:"d_high"` // >= 1 when Mul == 100
+	Cfg        LimitCfg `json:"cfg"`
+	Prefix     []Sample `json:"prefix"`
+	Final      Sample   `json:"final"`                 // in-flight / drop flag of the final sample (RTT field unused)
+	DLow       int64    `json:"d_low"`                 // rtt_low  = baseline + DLow
+	Mul        int      `json:"mul"`                   // rtt_high = rtt_low * Mul/100 + DHigh  (Mul >= 100)
+	DHigh      int64    `json:"d_high"`                // >= 1 when Mul == 100
+	AfterProbe int64    `json:"after_probe,omitempty"` // gradient, >0: the prefix is cut right after its first baseline probe and one saturated sample with this RTT sets the new baseline
+	Pm         int      `json:"pm,omitempty"`          // further rtt_low * Pm/1000 added to rtt_high (ratios just above 1)
 }
 
 func genC08(t *rapid.T) c08Case {
@@ -30,15 +32,27 @@ func genC08(t *rapid.T) c08Case {
 	if c.Cfg.Algo == "gradient2" && c.Cfg.LongWindow < 1 {
 		c.Cfg.LongWindow = 1
 	}
+	if c.Cfg.Algo == "gradient" && rapid.IntRange(0, 2).Draw(t, "probing") == 0 {
+		// histories with several baseline probes behind them (a final sample that is itself a probe moves both twins alike)
+		c.Cfg.ProbeInterval = rapid.IntRange(1, 40).Draw(t, "pi2")
+		if rapid.Bool().Draw(t, "cutAfterProbe") {
+			c.AfterProbe = rapid.Int64Range(1, 1_000_000).Draw(t, "settleRTT")
+		}
+	}
 	if rapid.IntRange(0, 4).Draw(t, "hasPrefix") > 0 {
 		c.Prefix = genSamples(t, c.Cfg, 120)
 	}
 	c.Final = genSamples(t, c.Cfg, 1)[0]
-	if rapid.IntRange(0, 3).Draw(t, "saturate") > 0 {
+	switch rapid.IntRange(0, 4).Draw(t, "saturate") {
+	case 0:
+	case 1: // app-limited: well below half the estimate
+		c.Final.Rel, c.Final.Inf = rapid.SampledFrom([]string{"third", "", ""}).Draw(t, "idlerel"), rapid.IntRange(0, 1).Draw(t, "idleinf")
+	default:
 		c.Final.Rel = rapid.SampledFrom([]string{"eq", "dbl"}).Draw(t, "satrel")
 	}
 	c.DLow = rapid.OneOf(rapid.Just(int64(0)), rapid.Int64Range(0, 1000), rapid.Int64Range(0, 1_000_000_000)).Draw(t, "dlow")
 	c.Mul = rapid.SampledFrom([]int{100, 100, 101, 110, 150, 200, 400, 1000}).Draw(t, "mul")
+	c.Pm = rapid.OneOf(rapid.Just(0), rapid.Just(0), rapid.IntRange(1, 999), rapid.IntRange(1, 150)).Draw(t, "pm")
 	c.DHigh = rapid.OneOf(rapid.Just(int64(1)), rapid.Int64Range(1, 1000), rapid.Int64Range(1, 1_000_000_000)).Draw(t, "dhigh")
 	return c
 }
@@ -48,10 +62,17 @@ func runC08(_ *testing.T, c c08Case) kit.Outcome {
 		pre, post int
 		base      int64
 	}
+	probed := false
 	run := func(high bool) res {
 		b := buildLimit(c.Cfg, nil)
 		for _, s := range c.Prefix {
+			had, _ := b.noLoad()
 			b.Outer.OnSample(s.Start, s.RTT, s.inflight(b.Outer.EstimatedLimit()), s.Drop)
+			if now, _ := b.noLoad(); c.AfterProbe > 0 && had != 0 && now == 0 {
+				b.Outer.OnSample(0, c.AfterProbe, b.Outer.EstimatedLimit(), false)
+				probed = true
+				break
+			}
 		}
 		var r res
 		r.pre = b.Outer.EstimatedLimit()
@@ -63,6 +84,11 @@ func runC08(_ *testing.T, c c08Case) kit.Outcome {
 		rtt := low
 		if high {
 			rtt = low/100*int64(c.Mul) + low%100*int64(c.Mul)/100 + c.DHigh
+			if low < 1<<50 {
+				rtt += low * int64(c.Pm) / 1000
+			} else {
+				rtt += low / 1000 * int64(c.Pm)
+			}
 			if rtt <= low { // overflow guard
 				rtt = low + 1
 			}
@@ -79,6 +105,12 @@ func runC08(_ *testing.T, c c08Case) kit.Outcome {
 		return kit.Viol(c.Cfg.Algo+":rtt-monotone", "same history (estimate %d, baseline %d), same in-flight/drop: the higher RTT gave estimate %d, the lower RTT %d", a.pre, a.base, bb.post, a.post)
 	}
 	out := kit.Outcome{Labels: []string{"algo:" + c.Cfg.Algo}}
+	if probed {
+		out.Labels = append(out.Labels, "final-right-after-probe")
+	}
+	if !c.Final.Drop && 2*c.Final.inflight(a.pre) < a.pre {
+		out.Labels = append(out.Labels, "final-app-limited")
+	}
 	if a.post != bb.post {
 		out.NonTrivial = true
 		out.Labels = append(out.Labels, "outcomes-differ")
@@ -92,7 +124,7 @@ func runC08(_ *testing.T, c c08Case) kit.Outcome {
 func TestC08_monotone(t *testing.T) {
 	kit.RequireMode(t, "std")
 	kit.Check(t, kit.Prop[c08Case]{
-		ID: "C08", Quick: 5000, Thor: 800_000,
+		ID: "C08", Quick: 20000, Thor: 800_000,
 		Rule: "twin instances (same jitter seed, same prefix history) fed a final sample differing only in RTT (low >= baseline, high > low); non-trivial = the two outcomes differ or both moved away from the pre-sample estimate",
 		Gen:  genC08, Run: runC08,
 	})
